@@ -219,6 +219,8 @@ C16_Send(r) ==       \* a send reported successful wrote exactly the requested m
    (r.cls = "REST" /\ r.rq.cls = "send" /\ r.rest.ok = 1) =>
       /\ r.pst = "ESTABLISHED" /\ r.st = "ESTABLISHED" /\ NoClose(r) /\ r.att = 0
       /\ Len(r.out) = 1 /\ r.out[1].c = r.ptr /\ r.out[1].type = r.rq.etype
+      \* a ROUTE-REFRESH goes out with the address family and the reserved octet of the request
+      /\ (r.rq.etype = "RR" /\ r.rq.valid /\ r.rq.rr[1] >= 0) => r.out[1].rr = r.rq.rr
       /\ (r.rq.etype = "UPDATE" /\ r.rq.valid) =>
             /\ r.out[1].wdn = r.rq.wdn /\ r.out[1].nln = r.rq.nln
             \* the documented default: LOCAL_PREF 100 on iBGP sessions when the request has attributes but no LOCAL_PREF
